@@ -1,9 +1,11 @@
 #!/bin/bash
 # tools/benign_run.sh [tier]: every check must stay silent (exit 0) on each behaviour-preserving patch in seeded/benign
 cd "$(dirname "$0")/.."
-tier=${1:-quick}
-out=seeded/benign/RESULT.$tier.txt; : > $out
-for f in seeded/benign/*.diff; do
+tier=${1:-quick}; shift
+out=seeded/benign/RESULT.$tier.txt
+files=${@:-$(ls seeded/benign/*.diff | sort -V)}
+[ $# -eq 0 ] && : > $out
+for f in $files; do
   scratch=/tmp/benign.$$
   rm -rf $scratch; mkdir -p $scratch; rsync -a --exclude .git /repo/ $scratch/
   (cd $scratch && patch -p1 -s < /verif/$f) || { echo "$f: patch failed" | tee -a $out; continue; }
@@ -13,6 +15,7 @@ for f in seeded/benign/*.diff; do
     if [ $rc -ne 0 ]; then line="$line $p(rc=$rc)"; echo "$o" | grep -v '^KNOWN' | head -5 | cut -c1-400 >> $out.detail; fi
   done
   [ "$line" = "$(basename $f):" ] && line="$line all 20 checks silent"
+  grep -v "^$(basename $f):" $out > $out.keep 2>/dev/null; mv $out.keep $out
   echo "$line" | tee -a $out
   rm -rf $scratch; rm -f .build/*.$(echo "$scratch" | md5sum | cut -c1-8)*
 done
